@@ -81,6 +81,9 @@ where
     const LINE_FEED: u8 = b'\n';
     const CARRIAGE_RETURN: char = '\r';
 
+    // The field is appended to `dst`, which holds the previous fields of the line.
+    let start = dst.len();
+
     let mut r#match = None;
     let mut len = 0;
 
@@ -128,7 +131,8 @@ where
 
     let is_eol = matches!(r#match, Some(LINE_FEED));
 
-    if is_eol && dst.ends_with(CARRIAGE_RETURN) {
+    // Only a carriage return that belongs to this (the last) field is part of the line terminator.
+    if is_eol && dst[start..].ends_with(CARRIAGE_RETURN) {
         dst.pop();
     }
 
